@@ -672,6 +672,40 @@ theorem stale_rule_sound (facts : List Access) (cleared : List Nat) (holderHb : 
   · exact hother pre t o s hrun (hoth (Or.inl h))
   · exact hother pre t o s hrun (hoth (Or.inr h))
 
+/-! ### The panic clause, for the nil dereferences the teardown can cause
+
+  `unload` sets `llama`, `model`, `Options`, `expireTimer` to nil; a handler or scheduler path that
+  uses one of them on a torn-down runner dereferences nil and panics (gin recovers it into a 500, or
+  the process dies when it happens on a goroutine the handler spawned).  In the life-cycle
+  semantics that is a `use` step on a cleared object. -/
+
+/-- the step dereferences a field the teardown has set to nil -/
+def panicsAt (s : LState) : LEv → Bool
+  | .use _ o _ => s.cleared o
+  | _ => false
+
+/-- **No step of a conforming history panics on a torn-down runner** (restates `stale_rule_sound`
+    for every step of the history). -/
+theorem no_nil_deref_panic (facts : List Access) (cleared : List Nat) (holderHb : Nat) (Gr Sr : LockRef)
+    (G : Lock) (S : Nat → Lock) (Other : List LEv → Thread → Nat → Prop)
+    (hrule : staleReads facts cleared holderHb Gr Sr = [])
+    (hother : ∀ pre t o s, lrun G S LState.init pre = some s → Other pre t o → s.cleared o = false)
+    (tr : List LEv) (hconf : UseConforms facts cleared holderHb G S Other tr)
+    (pre post : List LEv) (e : LEv) (htr : tr = pre ++ e :: post)
+    (s : LState) (hrun : lrun G S LState.init pre = some s) :
+    panicsAt s e = false := by
+  cases e with
+  | use t o f =>
+    exact stale_rule_sound facts cleared holderHb Gr Sr G S Other hrule hother tr hconf pre post t o f htr s hrun
+  | sync _ => rfl
+  | clear _ _ => rfl
+  | lookup _ _ => rfl
+  | check _ _ => rfl
+
+/-- and the stale history does panic: the last step of `staleTrace` dereferences a cleared field -/
+example : ((lrun (0, 0) (fun o => (1, o)) LState.init (staleTrace.take 9)).map
+    (fun s => panicsAt s (.use 1 7 0))) = some true := by decide
+
 /-! ## Witnesses -/
 
 private def rd (site cls : Nat) (locks : List LockRef) (thread : Nat) : Access :=
